@@ -190,13 +190,20 @@ def special_versions(sl):
 CAND_BRANCHES = [(1, 2, None, None, None, "2"), (2, 2, 0, None, None, "2.0"), (2, 2, 1, None, None, "2.1"), (1, 1, None, None, None, "1"),
                  (0, None, None, None, None, "master")]
 CAND_TAGS = ["v2.1.0", "v2.1", "v2"]
+# only v-prefixed tags are version tags; the others are unrelated tags (harness tag_fallback)
+FALLBACK_TAGS = ["v2.1.0", "v2.1", "v2", "2.1.0", "2.1", "vv2", "v2.1.0-SNAPSHOT"]
+# branches the working copy may be on from an earlier run / the user's own work (never candidates themselves)
+CUR_EXTRA = ["12", "7.2.0"]
 
 
 class StubGit:
-    def __init__(self):
+    def __init__(self, fixed_local=None, tag_candidates=None):
         self.calls = []
         self.current = "start-branch"
         self.cache = {}
+        self.tag_candidates = tag_candidates or CAND_TAGS
+        if fixed_local is not None:
+            self.cache["local"] = list(fixed_local)
 
     def _subset(self, tag, cands):
         if tag not in self.cache:
@@ -209,19 +216,24 @@ class StubGit:
 
     def tags(self, src):
         self.calls.append(("tags",))
-        return list(self._subset("tags", CAND_TAGS))
+        return list(self._subset("tags", self.tag_candidates))
 
     def current_branch(self, src):
         if "cur" not in self.cache:
-            k = fresh_int("current_is", 0, len(CAND_BRANCHES))
+            k = fresh_int("current_is", 0, len(CAND_BRANCHES) + len(CUR_EXTRA))
             kk = core.concretize(k.z) if core.is_sym(k) else k
             self.cache["cur"] = True
             if kk < len(CAND_BRANCHES):
                 self.current = CAND_BRANCHES[kk][5]
+            elif kk < len(CAND_BRANCHES) + len(CUR_EXTRA):
+                self.current = CUR_EXTRA[kk - len(CAND_BRANCHES)]
         return self.current
 
     def checkout(self, src, *, branch):
         self.calls.append(("checkout", branch))
+        known = [b if isinstance(b, str) else b[5] for k in ("local", "remote", "tags") for b in self.cache.get(k, [])]
+        if branch not in known:
+            raise exceptions.SupplyError("pathspec '%s' did not match anything known to git" % branch)
         if fresh_bool("checkout_fails_%d" % len(self.calls)):
             raise exceptions.SupplyError("cannot checkout (local changes)")
         self.current = branch
@@ -287,6 +299,40 @@ def repo_update(sl):
             observe("only a git failure may abort the update, as DataError", isinstance(err, exceptions.DataError))
             observe("a failed update attempted the best match", checkouts and checkouts[-1][1] == target)
         del failed
+
+
+def tag_fallback(sl):
+    """local repository whose branches do not qualify (only a later major exists): the most specific v-tag is used, unrelated tags
+    (no v prefix, double prefix) are ignored, and without a v-tag the update fails with a set-up error"""
+    later_major = (0, 3, None, None, None, "3")  # kind is irrelevant for the stub; best_match sees the name "3"
+    g = StubGit(fixed_local=[(1, 3, None, None, None, "3")], tag_candidates=FALLBACK_TAGS)
+    del later_major
+    vtext, V = sl["version"], tuple(sl["V"])
+    with shadowed(repo, (), extra={"git": g, "console": _Quiet}):
+        r = repo.RallyRepository(None, "/nonexistent-root", "default", "tracks", offline=False, fetch=False)
+        try:
+            r.update(vtext)
+            how, err = "ret", None
+        except Exception as e:  # noqa: BLE001
+            how, err = "raise", e
+    tags = g.cache.get("tags", [])
+    M, m, p, sfx = V
+    target = None
+    for cand in (["v%d.%d.%d-%s" % (M, m, p, sfx)] if sfx else []) + ["v%d.%d.%d" % (M, m, p), "v%d.%d" % (M, m), "v%d" % M]:
+        if cand in tags:
+            target = cand
+            break
+    checkouts = [c for c in g.calls if c[0] == "checkout"]
+    core.note("tags", tags)
+    core.note("outcome", (how, repr(err), g.current))
+    core.note("expected", target)
+    core.trace("n_calls", len(g.calls))
+    if target is None:
+        observe("no branch and no v-tag qualifies -> explicit set-up error, nothing checked out", how == "raise" and isinstance(err, exceptions.SystemSetupError) and not checkouts)
+    elif how == "ret":
+        observe("the most specific matching v-tag is checked out (unrelated tags ignored)", g.current == target and [c[1] for c in checkouts] == [target])
+    else:
+        observe("only a git failure on the matching tag may abort the update, as DataError", isinstance(err, exceptions.DataError) and checkouts and checkouts[-1][1] == target)
 
 
 # --------------------------------------------------------------------------------------------------------------------
@@ -385,9 +431,14 @@ HARNESSES = [
             stubs=["process.run_subprocess_* inside esrally.utils.git (returns a solver-chosen subset of the listed refs)"],
             bounds={"remote refs": [r for r, _ in REMOTE_REFS], "local refs": [r for r, _ in LOCAL_REFS], "versions": "2.1.0, 2.2.1, 3.0.0, 4.0.0"},
             doc="git's ref listing -> branch names -> best match (slash-named branches, HEAD entries, padding)"),
+    Harness("tag_fallback", tag_fallback, "symbolic",
+            lambda tier: [{"version": v, "V": V} for (v, V) in (("2.1.0", (2, 1, 0, None)), ("2.2.1", (2, 2, 1, None)), ("2.1.0-SNAPSHOT", (2, 1, 0, "SNAPSHOT")))],
+            reads=READS, stubs=["git module inside esrally.utils.repo (local branches fixed to ['3'], symbolic tag subset, checkout fails for unknown revisions)", "console"],
+            bounds={"tags": "any subset of %s" % FALLBACK_TAGS}, doc="v-tag fallback of local repositories"),
     Harness("repo_update", repo_update, "symbolic",
             lambda tier: [{"remote": r, "version": v, "V": V} for r in (True, False)
-                          for (v, V) in (("2.1.0", (2, 1, 0, None)), ("2.2.1", (2, 2, 1, None)), ("3.0.0", (3, 0, 0, None)), ("2.1.0-SNAPSHOT", (2, 1, 0, "SNAPSHOT")))],
+                          for (v, V) in (("2.1.0", (2, 1, 0, None)), ("2.2.1", (2, 2, 1, None)), ("3.0.0", (3, 0, 0, None)), ("2.1.0-SNAPSHOT", (2, 1, 0, "SNAPSHOT")),
+                                         ("1.5.0", (1, 5, 0, None)))],
             reads=READS, stubs=["git module inside esrally.utils.repo (symbolic branch/tag subsets, current branch, checkout/rebase failures)", "console"],
             bounds={"remote/local branches": "any subset of %s" % [b[5] for b in CAND_BRANCHES], "tags": "any subset of %s" % CAND_TAGS,
                     "failures": "each checkout and the rebase may raise SupplyError"},
